@@ -252,3 +252,6 @@ Proof.
   split; [reflexivity|]. split; [intros H; vm_compute in H; discriminate|].
   intros x Hx. destruct Hx as [<-|[<-|[]]]; vm_compute; reflexivity.
 Qed.
+
+Example normalised_sum_nonvacuous : ~ e_sum (evaluate (fun _ => 1) (fun _ => 0) 0 None [0; 0] 1) == 0.
+Proof. intros H. vm_compute in H. discriminate. Qed.
